@@ -31,9 +31,10 @@ def S(*xs):
 NONE = 100            # how a configuration file writes None for indent / width
 TAGIDS = S('1e', '1q', '2e', '2q', '2p', 'Xe', 'Xq', 'Xp', 'Ye', 'Yq', 'Yp', 'Ue', 'Uq', 'Up', '-u')
 BASE = dict(Indents=S(NONE), Widths=S(NONE), LineBreaks=S('N'), Encodings=S('N'), Streams=S('none'), ExplStart=S(False),
-            ExplEnd=S(False), Versions=S('N'), TagSets=S('N'), Canon=S(False), Unicode=S(False), Apis=S('dump'),
+            ExplEnd=S(False), Versions=S('N'), TagSets=S('N'), TagSets2=S('same'), Canon=S(False), Unicode=S(False), Apis=S('dump'),
             ScalarKinds=S('w'), CollKinds=S('BS', 'FS', 'BM', 'FM'), Anchors='FALSE', ExplicitTags='FALSE',
-            LongClasses=S(), LongLens=S(), LongStyles=S('P'), FixD12='FALSE', TagIds=S(), MaxEvents=6, MaxDepth=3, MaxDocs=1)
+            LongClasses=S(), LongLens=S(), LongStyles=S('P'), FixD12='FALSE', TagIds=S(), InnerAnchors='FALSE', Share='FALSE', NodeBudget='FALSE',
+            MaxEvents=6, MaxDepth=3, MaxDocs=1)
 ALLIND = S(NONE, 0, 1, 2, 3, 4, 5, 6, 7, 8, 9, 10)
 ALLWID = S(NONE, 0, 1, 5, 20, 80)
 CONFIGS = {
@@ -77,10 +78,11 @@ CONFIGS = {
                     ScalarKinds=S('w', 'e', 'm', 'u', 'n'), Anchors='TRUE', ExplicitTags='TRUE', MaxEvents=4, MaxDepth=2),
     # tags: the explicit tag of a node related to every tag prefix that can be in force (the defaults '!' and 'tag:yaml.org,2002:',
     # and those the tags option declares) as proper extension / EQUAL / proper prefix / unrelated, on scalars and collections,
-    # x tags option x canonical: which of handle + suffix, '!', or !<verbatim> is written, and can it be read back
-    'tags':    dict(BASE, TagSets=S('N', 'T1', 'T2'), Canon=S(False, True), TagIds=TAGIDS, ScalarKinds=S('w'), CollKinds=S('BS', 'BM', 'FS'),
+    # x tags option (incl. one that REDEFINES '!' / '!!': the default prefix of that handle is retired) x canonical: which of
+    # handle + suffix, '!', or !<verbatim> is written, and can it be read back
+    'tags':    dict(BASE, TagSets=S('N', 'T2', 'R1', 'R2'), Canon=S(False, True), TagIds=TAGIDS, ScalarKinds=S('w'), CollKinds=S('BS', 'BM', 'FS'),
                     MaxEvents=3, MaxDepth=1),
-    'tags+':   dict(BASE, Indents=S(NONE, 4), TagSets=S('N', 'T1', 'T2', 'TU'), Canon=S(False, True), TagIds=TAGIDS, ScalarKinds=S('w', 'm'),
+    'tags+':   dict(BASE, Indents=S(NONE, 4), TagSets=S('N', 'T1', 'T2', 'TU', 'R1', 'R2'), Canon=S(False, True), TagIds=TAGIDS, ScalarKinds=S('w', 'm'),
                     CollKinds=S('BS', 'BM', 'FS', 'FM'), MaxEvents=3, MaxDepth=1),
     # longkeys: long lexemes (macro-symbols) around the two length constants that decide whether a key may be a simple key -
     # the emitter's 128 (anchor + tag + raw scalar) and the reader's 1024 (characters as written) - x character class
@@ -91,6 +93,31 @@ CONFIGS = {
     'longkeys+': dict(BASE, Unicode=S(False, True), LongClasses=S('a', 'v', 'U', 'x', 'q'), LongStyles=S('P', 'S', 'D'),
                       LongLens=S(*(list(range(100, 105)) + list(range(120, 131)) + list(range(168, 173)) + list(range(253, 258)) + list(range(1000, 1031)))),
                       ScalarKinds=S(), CollKinds=S('BS', 'BM', 'FS', 'FM'), ExplicitTags='TRUE', MaxEvents=3, MaxDepth=1),
+    # share: the documents of ONE dump_all / serialize_all call share objects - a collection written in an earlier document
+    # occurs (same object) in a later one, at the root or inside, once or twice - x the per-document options (markers, canonical);
+    # sharefmt: the same x the layout / encoding / directive options.  MaxEvents bounds the NODES here (NodeBudget).
+    # Only the streams with a shared object are replayed (the others are the docs configuration's).
+    'share':     dict(BASE, ExplStart=S(False, True), ExplEnd=S(False, True), Canon=S(False, True), CollKinds=S('BS', 'BM'),
+                      Share='TRUE', NodeBudget='TRUE', MaxEvents=4, MaxDepth=2, MaxDocs=3),
+    'sharefmt':  dict(BASE, Indents=S(NONE, 4), LineBreaks=S('N', 'CRLF'), Encodings=S('N', 'utf-16-le'),
+                      Versions=S('N', '1.1'), TagSets=S('N', 'T1'), CollKinds=S('BS', 'BM'),
+                      Share='TRUE', NodeBudget='TRUE', MaxEvents=3, MaxDepth=2, MaxDocs=2),
+    'share+':    dict(BASE, ExplStart=S(False, True), ExplEnd=S(False, True), Canon=S(False, True), Versions=S('N', '1.1'),
+                      CollKinds=S('BS', 'BM'), Share='TRUE', NodeBudget='TRUE', MaxEvents=5, MaxDepth=2, MaxDocs=3),
+    'sharefmt+': dict(BASE, Indents=S(NONE, 4), Widths=S(NONE, 5), LineBreaks=S('N', 'CRLF'), Encodings=S('N', 'utf-16-le'),
+                      TagSets=S('N', 'T1'), CollKinds=S('BS', 'BM'), Anchors='TRUE',
+                      Share='TRUE', NodeBudget='TRUE', MaxEvents=4, MaxDepth=2, MaxDocs=2),
+    # doctags: a caller of emit() gives every DocumentStartEvent its own tags: the second document declares other handles than the
+    # first (none / fewer / more / a redefined default) x a root node whose tag every one of these prefixes may or may not abbreviate
+    'doctags':   dict(BASE, Apis=S('emit'), TagSets=S('N', 'T1', 'T2', 'R2'), TagSets2=S('same', 'N', 'T1', 'T2', 'R2'), Canon=S(False, True),
+                      TagIds=S('1e', '2e', 'Xe', 'Xq', 'Ye', '-u'), CollKinds=S(), NodeBudget='TRUE', MaxEvents=2, MaxDepth=0, MaxDocs=2),
+    # anchors: EVERY collection may carry an anchor and be aliased later in its document (also from inside itself) - the
+    # in-document sharing the Serializer expresses with &id001 / *id001, x canonical x indent (an anchored block collection
+    # starts on the next line); all streams through emit(), those the Serializer can produce also through serialize_all / dump_all
+    'anchors':   dict(BASE, Indents=S(NONE, 3), Canon=S(False, True), CollKinds=S('BS', 'BM'), Anchors='TRUE', InnerAnchors='TRUE',
+                      NodeBudget='TRUE', MaxEvents=4, MaxDepth=2),
+    'anchors+':  dict(BASE, Indents=S(NONE, 3), Canon=S(False, True), CollKinds=S('BS', 'BM'), Anchors='TRUE', InnerAnchors='TRUE',
+                      NodeBudget='TRUE', MaxEvents=5, MaxDepth=2),
     # full: a tiny structure space x the FULL option product (design check + replay)
     'full':    dict(BASE, Indents=ALLIND, Widths=ALLWID, LineBreaks=S('N', 'CR', 'LF', 'CRLF', 'J'),
                     Encodings=S('N', 'utf-8', 'utf-16-le', 'utf-16-be'), Streams=S('none', 'text', 'binary'),
@@ -99,8 +126,8 @@ CONFIGS = {
                     MaxEvents=1, MaxDepth=0),
 }
 # 'full' is a design check only (no replay): the full option product over the smallest structure
-TIERS = {'quick': ['nest', 'scalars', 'keys', 'tags', 'longkeys', 'width', 'docs', 'enc', 'canon'],
-         'thorough': ['nest+', 'scalars+', 'keys+', 'tags+', 'longkeys+', 'width+', 'docs+', 'enc+', 'canon+', 'full']}
+TIERS = {'quick': ['nest', 'scalars', 'keys', 'tags', 'longkeys', 'share', 'anchors', 'width', 'docs', 'enc', 'canon', 'sharefmt', 'doctags'],
+         'thorough': ['nest+', 'scalars+', 'keys+', 'tags+', 'longkeys+', 'share+', 'sharefmt+', 'anchors+', 'doctags', 'width+', 'docs+', 'enc+', 'canon+', 'full']}
 
 # ------------------------------------------------------------------------------------------------ concretisation tables
 WORDS = 'aaaa bbbb cccc dddd eeee ffff'
@@ -127,7 +154,8 @@ STYLE = {'b': '|', 'g': '|', 'h': '|', 'f': '>'}
 LONG = {'a': ['k', 'Z', '7'], 'v': ['\u0436', '\u65e5', '\u0100', '\ud7ff'], 'U': ['\U0001F600', '\U00010000', '\U0010fffe'],
         'x': ['\x07', '\x01', '\x7f', '\x1b'], 'q': ['"']}
 TAGS = {'N': None, 'T1': {'!x!': 'tag:x.org,2002:'}, 'T2': {'!x!': 'tag:x.org,2002:', '!y!': '!local-'},
-        'TU': {'!u!': 'tag:\u00fc.org,2002:'}}
+        'TU': {'!u!': 'tag:\u00fc.org,2002:'},
+        'R1': {'!': 'tag:x.org,2002:'}, 'R2': {'!!': 'tag:x.org,2002:'}}       # the tags option REDEFINES a default handle
 LB = {'N': None, 'CR': '\r', 'LF': '\n', 'CRLF': '\r\n'}
 JUNK = ['x', '\n\r', '', ' ', '\x85', 'LF']
 YSTR, YSEQ, YMAP = 'tag:yaml.org,2002:str', 'tag:yaml.org,2002:seq', 'tag:yaml.org,2002:map'
@@ -149,12 +177,36 @@ class NotExpressible(Exception):
     pass
 
 
+def serializer_anchors(doc):
+    """could the Serializer have produced the anchors of this document?  it anchors exactly the nodes that occur again (as
+    aliases) in the same document"""
+    anchored = {e.get('o', 0) for e in doc if e['a']}
+    aliased = {e.get('o', 0) for e in doc if e['k'] == 'Alias'}
+    if anchored == aliased:
+        return True
+    return anchored == {doc[0].get('o', 0)} and aliased == {0}          # streams recorded before objects had identities
+
+
+def skip_subtree(doc, pos):
+    """pos[0] is just behind a collection start: move it behind the matching end"""
+    level = 1
+    while level:
+        k = doc[pos[0]]['k']
+        level += 1 if k in ('SequenceStart', 'MappingStart') else -1 if k in ('SequenceEnd', 'MappingEnd') else 0
+        pos[0] += 1
+
+
+def shares_objects(evs):
+    """does some collection of the stream occur a second time (written again in a later document)?"""
+    return any(e['k'] in ('SequenceStart', 'MappingStart') and e.get('o', 0) not in (0, i + 1) for i, e in enumerate(evs))
+
+
 def hopt(o, api):
     """option record in the vocabulary of H_Format (what the caller passed)"""
     tags = o['tags']
     return {'indent': o['indent'], 'width': o['width'], 'lb': o['lb'], 'enc': o['enc'], 'stream': o['stream'],
             'es': bool(o['es']), 'ee': bool(o['ee']), 'ver': o['ver'],
-            'tags': [[h, tags[h]] for h in sorted(tags)] if isinstance(tags, dict) else [], 'canon': bool(o['canon']), 'au': bool(o['au'])}
+            'tags': [[h, tags[h]] for h in sorted(tags)] if isinstance(tags, dict) and o.get('tags2', 'same') == 'same' else [], 'canon': bool(o['canon']), 'au': bool(o['au'])}
 
 
 def kwargs(o, rnd, emit):
@@ -439,12 +491,26 @@ def cevents_of(events):
     return out
 
 
-def observe(yaml, call, o, ndocs, sink):
-    """run one dump call and project it. call(stream) -> result; sink: 'none' | 'text' | 'binary'.
+def refs_of(events):
+    """the anchors and aliases a caller of emit() supplies, per document (H_Format: obs.refs)"""
+    out = []
+    for e in events:
+        k = type(e).__name__
+        if k == 'DocumentStartEvent':
+            out.append(['doc', ''])
+        elif k == 'AliasEvent':
+            out.append(['alias', e.anchor or ''])
+        elif getattr(e, 'anchor', None):
+            out.append(['anchor', e.anchor])
+    return out
+
+
+def observe(yaml, call, o, ndocs, sink, refs=()):
+    """run one dump call and project it. call(stream) -> result; sink: 'none' | 'text' | 'binary'; refs: refs_of(events) for emit().
     -> (obs, text, aux) ; aux carries the un-compressed per-line / per-entry lists for the L comparison"""
     stream = None if sink == 'none' else io.StringIO() if sink == 'text' else io.BytesIO()
     obs = {'outcome': 'ok', 'rtype': '-', 'decodes': True, 'bom': 'none', 'lines': [], 'entries': [], 'marks': [], 'ndocs': ndocs,
-           'reread': []}
+           'reread': [], 'recompose': [], 'refs': [list(x) for x in refs]}
     aux = {'exc': '', 'lines': [], 'entries': [], 'marks': [], 'scan': 'ok', 'reread': []}
     try:
         res = call(stream)
@@ -489,6 +555,20 @@ def observe(yaml, call, o, ndocs, sink):
         except Exception as e:
             obs['reread'].append('exception')
             aux['reread'].append('%s: %s: %s' % (L.__name__, type(e).__name__, str(e)[:300]))
+    for L in (yaml.Loader, yaml.CLoader):               # ... and the composition of the events into documents
+        if obs['reread'] != ['ok', 'ok']:
+            break                                        # the earlier stage already rejects the text
+        try:
+            for _ in yaml.compose_all(res, Loader=L):
+                pass
+            obs['recompose'].append('ok')
+        except yaml.YAMLError as e:
+            obs['recompose'].append('yamlerror')
+            aux['reread'].append('compose_all, %s: %s' % (L.__name__, ' / '.join(x.strip() for x in str(e).splitlines()[:2])[:300]))
+            aux.setdefault('reject', 'composition: ' + str(getattr(e, 'problem', '') or '')[:60].split("'")[0].strip())
+        except Exception as e:
+            obs['recompose'].append('exception')
+            aux['reread'].append('compose_all, %s: %s: %s' % (L.__name__, type(e).__name__, str(e)[:300]))
     aux.update(lines=lines, entries=entries, marks=marks, scan=scan)
     # compression that preserves every quantifier of H: distinct line kinds, distinct (indentation, first) pairs
     seen, out = set(), []
@@ -528,18 +608,26 @@ def make_builders(yaml):
     def events(evs, o, base, rnd, enc):
         out = [E.StreamStartEvent(encoding=enc)]
         tags = o['tags'] if isinstance(o['tags'], dict) else None
+        tags2 = tags if o.get('tags2', 'same') == 'same' else o['tags2']        # the tags of the documents after the first
+        ndoc = 0
         ver = None if o['ver'] == 'N' else tuple(int(x) for x in o['ver'].split('.'))
-        for e in evs:
+        names = {}                      # object -> anchor name, per document (id001, id002, ... in order of appearance)
+        for i, e in enumerate(evs):
             k = e['k']
-            anchor = 'id001' if e['a'] else None
+            anchor = None
+            if e['a']:
+                anchor = names.setdefault(e.get('o', 0), 'id%03d' % (len(names) + 1))
             if k == 'DocumentStart':
-                out.append(E.DocumentStartEvent(explicit=bool(o['es']), version=ver, tags=dict(tags) if tags else None))
+                names = {}
+                ndoc += 1
+                dt = tags if ndoc == 1 else tags2
+                out.append(E.DocumentStartEvent(explicit=bool(o['es']), version=ver, tags=dict(dt) if dt else None))
             elif k == 'DocumentEnd':
                 out.append(E.DocumentEndEvent(explicit=bool(o['ee'])))
             elif k == 'StreamEnd':
                 out.append(E.StreamEndEvent())
             elif k == 'Alias':
-                out.append(E.AliasEvent('id001'))
+                out.append(E.AliasEvent(names.get(e.get('o', 0), 'id001')))
             elif k == 'Scalar':
                 s = e['s']
                 if s == 'z':
@@ -573,9 +661,9 @@ def make_builders(yaml):
         """representation graphs for serialize_all; the Serializer assigns anchors itself, so the document must use its
         anchor exactly when it has an alias"""
         out = []
-        for doc in split_docs(evs):
-            has_alias = any(e['k'] == 'Alias' for e in doc)
-            if any(e['k'] == 'Scalar' and e['s'] == 'z' for e in doc) or doc[0]['a'] != has_alias:
+        pool = {}                       # object identity (e['o']) -> the node; ONE node object for all its occurrences, in
+        for doc in split_docs(evs):     # whatever document they are
+            if any(e['k'] == 'Scalar' and e['s'] == 'z' for e in doc) or not serializer_anchors(doc):
                 raise NotExpressible
             pos = [0]
             root = [None]
@@ -585,13 +673,18 @@ def make_builders(yaml):
                 pos[0] += 1
                 k = e['k']
                 if k == 'Alias':
-                    return root[0]
+                    return pool[e['o']] if e.get('o') else root[0]
                 if k == 'Scalar':
                     return N.ScalarNode(tag_of(e, YSTR), pick(e['s'], base, rnd, e), style=style_of(e))
+                if e.get('o') in pool:                      # an object of an earlier document: the same node again
+                    skip_subtree(doc, pos)
+                    return pool[e['o']]
                 if k == 'SequenceStart':
                     n = N.SequenceNode(tag_of(e, YSEQ), [], flow_style=e['f'])
                     if root[0] is None:
                         root[0] = n
+                    if e.get('o'):
+                        pool[e['o']] = n
                     while doc[pos[0]]['k'] != 'SequenceEnd':
                         n.value.append(build())
                     pos[0] += 1
@@ -599,6 +692,8 @@ def make_builders(yaml):
                 n = N.MappingNode(tag_of(e, YMAP), [], flow_style=e['f'])
                 if root[0] is None:
                     root[0] = n
+                if e.get('o'):
+                    pool[e['o']] = n
                 while doc[pos[0]]['k'] != 'MappingEnd':
                     kk = build()
                     n.value.append((kk, build()))
@@ -613,9 +708,9 @@ def make_builders(yaml):
     def values(evs, base, rnd):
         """plain Python values for dump_all + the default_flow_style that reproduces the flow flags, or NotExpressible"""
         out, flags = [], []            # flags: (flow flag, is leaf collection) per collection
+        pool = {}                      # object identity -> the Python object: the SAME list / dict in every document it occurs in
         for doc in split_docs(evs):
-            has_alias = any(e['k'] == 'Alias' for e in doc)
-            if doc[0]['a'] != has_alias or any(e['t'] for e in doc) or any(e['k'] == 'Scalar' and (e['s'] in ('z', 'b', 'f', 'g', 'h') or e['y'] != 'P') for e in doc):
+            if not serializer_anchors(doc) or any(e['t'] for e in doc) or any(e['k'] == 'Scalar' and (e['s'] in ('z', 'b', 'f', 'g', 'h') or e['y'] != 'P') for e in doc):
                 raise NotExpressible
             pos = [0]
             root = [None]
@@ -627,15 +722,20 @@ def make_builders(yaml):
                 if k == 'Alias':
                     if key:
                         raise NotExpressible
-                    return root[0], True
+                    return (pool[e['o']] if e.get('o') else root[0]), True
                 if k == 'Scalar':
                     return pick(e['s'], base, rnd, e), False
                 if key:
                     raise NotExpressible           # a collection as a key has no plain Python counterpart with the same tag
+                if e.get('o') in pool:             # an object of an earlier document: the same object again
+                    skip_subtree(doc, pos)
+                    return pool[e['o']], True
                 if k == 'SequenceStart':
                     v, leaf = [], True
                     if root[0] is None:
                         root[0] = v
+                    if e.get('o'):
+                        pool[e['o']] = v
                     while doc[pos[0]]['k'] != 'SequenceEnd':
                         x, c = build(False)
                         leaf = leaf and not c
@@ -646,6 +746,8 @@ def make_builders(yaml):
                 v, leaf = {}, True
                 if root[0] is None:
                     root[0] = v
+                if e.get('o'):
+                    pool[e['o']] = v
                 while doc[pos[0]]['k'] != 'MappingEnd':
                     kk, _ = build(True)
                     x, c = build(False)
@@ -678,7 +780,7 @@ def model_prediction(st, best_break):
     entries = [[e['k'], e['line'], e['col'], e['first'], e['ind']] for e in em['entries']]
     marks = [[m['k'], m['a'], m['b']] for m in em['marks'] if m['k'] != 'X']
     return {'lines': lines, 'entries': entries, 'marks': marks, 'rtype': 'str' if em['enc'] == 'N' else 'bytes', 'bom': em['bom'],
-            'unreadable': em['badtag'] or any(k['len'] > 1024 or not k['same'] for k in em['skeys'])}
+            'unreadable': em['badtag'] or em.get('badref', False) or any(k['len'] > 1024 or not k['same'] for k in em['skeys'])}
 
 
 def drift(pred, obs, aux, nel):
@@ -690,8 +792,8 @@ def drift(pred, obs, aux, nel):
     real = [{'ind': l['ind'], 'brk': 'NEL' if l['brk'] in ('NEL', 'LS', 'PS') else l['brk'], 'cls': norm_cls(l['cls'])} for l in aux['lines']]
     if real != pred['lines']:
         return 'lines'
-    if pred['unreadable'] != (obs['reread'][:1] != ['ok']):
-        return 'readability (L says %s)' % ('a simple key is too long for the reader / a tag has no suffix' if pred['unreadable'] else 'readable')
+    if pred['unreadable'] != (obs['reread'][:1] != ['ok'] or obs['recompose'][:1] not in ([], ['ok'])):
+        return 'readability (L says %s)' % ('a simple key is too long for the reader / a tag has no suffix / an alias has no anchor' if pred['unreadable'] else 'readable')
     if pred['unreadable']:
         return None                       # the re-scan stops at the key: no token positions to compare
     if [e[:5] for e in aux['entries']] != pred['entries']:
@@ -745,10 +847,15 @@ def replay(states, extra):
     res = {'n': 0, 'done': 0, 'calls': 0, 'traces': {}, 'acts': {}, 'drift': {}, 'cdrift': 0, 'ccalls': 0, 'pycalls': 0, 'apis': {},
            'samples': [], 'nontrivial': 0}
     for st in states:
-        res['done'] += 1
         o, evs = st['opt'], st['evs']
+        if extra.get('shared_only') and not shares_objects(evs):
+            res['skipped'] = res.get('skipped', 0) + 1          # a stream without a shared object: the docs configuration's
+            continue
+        res['done'] += 1
         if isinstance(o['tags'], str):
             o = dict(o, tags=TAGS[o['tags']])
+        if o.get('tags2', 'same') != 'same' and isinstance(o['tags2'], str):
+            o = dict(o, tags2=TAGS[o['tags2']])
         key = json.dumps([evs, st['opt']], sort_keys=True)
         rnd = random.Random('%d/%s' % (SEED, key))
         base = rnd.random() < 0.4
@@ -759,7 +866,7 @@ def replay(states, extra):
         sink = o['stream']
         calls = []                                       # (api, dumper name, call, events for clause g)
         apis = [o['api']] if extra['apis_from_model'] else ['emit', 'serialize', 'dump']
-        if tier == 'quick' and not extra['apis_from_model']:
+        if tier == 'quick' and not extra['apis_from_model'] and not extra.get('shared_only'):
             # emit() and serialize_all() drive the same emitter: the quick tier takes one of them per state (seeded), thorough both
             apis = [rnd.choice(['emit', 'serialize']), 'dump']
             if apis[0] == 'serialize':
@@ -797,7 +904,7 @@ def replay(states, extra):
                 for D in (('Dumper', 'CDumper', 'SafeDumper', 'CSafeDumper') if tier == 'thorough' or rnd.random() < 0.3 else ('Dumper', 'CDumper')):
                     calls.append((api, D, (lambda s, D=D, vals=vals, kw=kw: yaml.dump_all(vals, s, Dumper=getattr(yaml, D), **kw)), ('values', vals, kw, 'Safe' in D)))
         for api, D, call, src in calls:
-            obs, text, aux = observe(yaml, call, o, ndocs, sink)
+            obs, text, aux = observe(yaml, call, o, ndocs, sink, refs_of(src) if api == 'emit' else ())
             res['calls'] += 1
             res['apis'][api + '/' + D] = res['apis'].get(api + '/' + D, 0) + 1
             events = None
@@ -881,7 +988,7 @@ def random_options(rnd, emit=False):
     o = {'indent': rnd.choice([-1, 0, 1, 2, 3, 4, 5, 6, 7, 8, 9, 10]), 'width': rnd.choice([-1, 0, 1, 5, 20, 80]),
          'lb': rnd.choice(['N', 'CR', 'LF', 'CRLF', 'J']), 'enc': rnd.choice(['N', 'utf-8', 'utf-16-le', 'utf-16-be']),
          'stream': rnd.choice(['none', 'none', 'text', 'binary']), 'es': rnd.random() < 0.4, 'ee': rnd.random() < 0.4,
-         'ver': rnd.choice(['N', 'N', '1.1', '1.2']), 'tags': rnd.choice([None, None, TAGS['T1'], TAGS['T2']]),
+         'ver': rnd.choice(['N', 'N', '1.1', '1.2']), 'tags': rnd.choice([None, None, None, None, TAGS['T1'], TAGS['T2'], TAGS['T1'], TAGS['T2'], TAGS['R1'], TAGS['R2']]),
          'canon': rnd.random() < 0.3, 'au': rnd.random() < 0.5}
     if o['stream'] == 'binary' and o['enc'] == 'N':
         o['enc'] = 'utf-8'
@@ -900,21 +1007,29 @@ SCALARS = [x for k in REPS for x in REPS[k]] + ['x y z', 'trail ', ' ', '- x', '
                                                 True, False, None, 3, -7, 1.5, 10 ** 20, b'bytes \x00\xff' * 12, b'']
 
 
-def random_value(rnd, budget, depth=0):
+def random_value(rnd, budget, depth=0, pool=None):
+    """pool: the finished lists / dicts of this call so far (of this document and of the earlier ones): with it, a value may be
+    one of them AGAIN - the same object, shared inside a document (anchor + alias) or between the documents of the call"""
     r = rnd.random()
+    if pool and rnd.random() < 0.12:
+        budget[0] -= 1
+        return rnd.choice(pool)
     if budget[0] <= 1 or depth > 5 or r < 0.35:
         budget[0] -= 1
         return rnd.choice(SCALARS)
     budget[0] -= 1
     if r < 0.65:
-        return [random_value(rnd, budget, depth + 1) for _ in range(rnd.randrange(0, 5)) if budget[0] > 0]
-    out = {}
-    for _ in range(rnd.randrange(0, 5)):
-        if budget[0] <= 0:
-            break
-        k = rnd.choice(SCALARS) if rnd.random() < 0.85 else tuple(rnd.choice(SCALARS) for _ in range(rnd.randrange(0, 3)))
-        budget[0] -= 1
-        out[k] = random_value(rnd, budget, depth + 1)
+        out = [random_value(rnd, budget, depth + 1, pool) for _ in range(rnd.randrange(0, 5)) if budget[0] > 0]
+    else:
+        out = {}
+        for _ in range(rnd.randrange(0, 5)):
+            if budget[0] <= 0:
+                break
+            k = rnd.choice(SCALARS) if rnd.random() < 0.85 else tuple(rnd.choice(SCALARS) for _ in range(rnd.randrange(0, 3)))
+            budget[0] -= 1
+            out[k] = random_value(rnd, budget, depth + 1, pool)
+    if pool is not None:
+        pool.append(out)                 # finished: it cannot contain itself, so the values stay acyclic
     return out
 
 
@@ -1013,7 +1128,8 @@ def random_work(args):
         rnd = random.Random('%d/%s/%d' % (SEED, kind, sd))
         if kind == 'values':
             o = random_options(rnd)
-            docs = [random_value(rnd, [rnd.randrange(1, 40)]) for _ in range(rnd.randrange(1, 4))]
+            pool = [] if sd % 3 == 0 else None                   # every third call: documents that share objects
+            docs = [random_value(rnd, [rnd.randrange(1, 40)], 0, pool) for _ in range(rnd.randrange(1, 4))]
             kw = kwargs(o, rnd, False)
             kw['default_flow_style'] = rnd.choice([None, False, True])
             kw['default_style'] = rnd.choice([None, None, None, '"', "'", '|', '>'])
@@ -1055,7 +1171,7 @@ def random_work(args):
             evl = [E.StreamStartEvent(encoding=None if o['enc'] == 'N' else o['enc'])] + body + [E.StreamEndEvent()]
             kw = kwargs(o, rnd, True)
             for D in ('Dumper', 'CDumper'):
-                obs, text, aux = observe(yaml, (lambda s, D=D: yaml.emit(evl, s, Dumper=getattr(yaml, D), **kw)), o, ndocs, o['stream'])
+                obs, text, aux = observe(yaml, (lambda s, D=D: yaml.emit(evl, s, Dumper=getattr(yaml, D), **kw)), o, ndocs, o['stream'], refs_of(evl))
                 calls += 1
                 t = mktrace(o, 'emit', obs, text, evl)
                 h = hashlib.md5(json.dumps(t, sort_keys=True).encode()).hexdigest()
@@ -1165,7 +1281,8 @@ def replay_file(v, path):
             traces.update(random_work((kind, [c['seed']]))[0])
         elif 'evs' in c:
             res = replay([{'opt': c['options'], 'evs': c['evs'], 'em': None}],
-                         {'config': c['config'], 'tier': 'thorough', 'apis_from_model': c['config'].startswith('enc')})
+                         {'config': c['config'], 'tier': 'thorough', 'apis_from_model': c['config'].startswith(('enc', 'doctags')),
+                          'shared_only': c['config'].startswith('share')})
             traces.update(res['traces'])
     states = judge_all(v, traces, 'C15_replay')
     v.cov = {'states': states, 'transitions': 0, 'traces_validated_against_impl': len(traces), 'samples': ['replay of ' + path],
@@ -1179,7 +1296,7 @@ def main(tier, replay=None):
     if replay:
         return replay_file(v, replay)
     names = TIERS[tier]
-    par = 4
+    par = max(1, min(4, PROCS // 4))                          # TLC runs side by side (VERIF_C15_PROCS=4: one at a time)
     with ThreadPoolExecutor(par) as ex:                       # the configurations are independent TLC runs
         fix12 = detect_fix_d12()
         runs = dict(ex.map(run_config, [(n, max(2, PROCS // par), fix12) for n in names]))
@@ -1197,7 +1314,7 @@ def main(tier, replay=None):
         if name in DESIGN_ONLY:
             per_config[name]['design_check_only'] = True
             continue
-        extra = {'config': name, 'tier': tier, 'apis_from_model': name.startswith('enc')}
+        extra = {'config': name, 'tier': tier, 'apis_from_model': name.startswith(('enc', 'doctags')), 'shared_only': name.startswith('share')}
         jobs += [('replay', r.dump, a, b, extra) for a, b in mbt.split_dump(r.dump, 48)]
     nv, ne, nc = (1500, 1500, 1200) if tier == 'quick' else (30000, 30000, 12000)
     for kind, n in (('values', nv), ('events', ne), ('corpus', nc)):
@@ -1229,6 +1346,8 @@ def main(tier, replay=None):
         calls += o['calls']
         done += o['done']
         nontrivial += o['nontrivial']
+        if name.startswith('share'):
+            pc['finished_streams_without_shared_object_not_replayed'] = pc.get('finished_streams_without_shared_object_not_replayed', 0) + o.get('skipped', 0)
         for k, w in (('dump_states', 'n'), ('finished_streams', 'done'), ('calls', 'calls'), ('python_calls_compared_with_L', 'pycalls'),
                      ('libyaml_calls_compared_with_L', 'ccalls'), ('libyaml_layout_differs_from_L', 'cdrift')):
             pc[k] = pc.get(k, 0) + o[w]
@@ -1247,7 +1366,8 @@ def main(tier, replay=None):
     v.cov = {'states': states, 'transitions': trans, 'traces_validated_against_impl': calls + rcalls,
              'spec_to_code_calls': calls, 'code_to_spec_calls': rcalls, 'distinct_observations_judged_by_tlc': len(traces),
              'finished_event_streams_replayed': done, 'distinct_nontrivial': nontrivial, 'exhaustive': True,
-             'rule': 'every finished state of every Format.tla configuration (event stream x option set) is written through the real '
+             'rule': 'every finished state of every Format.tla configuration (event stream x option set; in the share configurations: every '
+                     'stream in which an object of an earlier document occurs again) is written through the real '
                      'dumpers; non-trivial = the stream contains a collection; every projected output is judged by TLC (Trace_Format: '
                      'H_Format + Canonical); identical (options, observation) pairs are judged once',
              'actions_fired': acts, 'calls_per_api': apis, 'configs': per_config, 'bounds': {n: CONFIGS[n] for n in names},
@@ -1257,6 +1377,9 @@ def main(tier, replay=None):
                      'handles); a bytes stream is given an encoding; emit() has no encoding option',
                      'lines that start a block collection entry = BLOCK-ENTRY / block-context KEY tokens of the re-scanned output that '
                      'are first on their line (DESIGN 5.0)',
+                     'clause a: the reader accepts = yaml.parse AND yaml.compose_all (Loader and CLoader) run to the end; composition is '
+                     'not demanded when a caller of emit() himself supplies an alias without an anchor before it in the same document or '
+                     'the same anchor twice in a document; constructors (tags / values) are not part of the clause',
                      'clause b: printable ASCII = U+0020..U+007E, line breaks of an ASCII text = CR, LF, CR LF',
                      'clause c: only when line_break is one of CR, LF, CR LF; clause e: only the markers the options demand',
                      'LibYAML is an environment: its output is held to H only; L predicts the Python emitter']
